@@ -233,7 +233,7 @@ func runC09(c *Ctx) {
 					stateUpd = true
 				}
 			case *ssa.Store:
-				if DerivesLocal(in.Addr, IsFieldOf("Matcher", "setBindings")) {
+				if AddrFrom(in.Addr, IsFieldOf("Matcher", "setBindings")) {
 					if DerivesLocal(in.Val, func(v ssa.Value) bool {
 						bo, ok := v.(*ssa.BinOp)
 						return ok && bo.Op == token.SHL && DerivesLocal(bo.Y, IsFieldOf("Binding", "idx"))
@@ -286,7 +286,7 @@ func runC09(c *Ctx) {
 			if !ok {
 				return
 			}
-			if _, isIdx := st.Addr.(*ssa.IndexAddr); !isIdx || !DerivesLocal(st.Addr, IsFieldOf("Matcher", "setBindings")) {
+			if _, isIdx := st.Addr.(*ssa.IndexAddr); !isIdx || !AddrFrom(st.Addr, IsFieldOf("Matcher", "setBindings")) {
 				return
 			}
 			bo, ok := st.Val.(*ssa.BinOp)
